@@ -1,3 +1,3 @@
 SPECIFICATION TSpec
-CONSTANT NProcs = 17
+CONSTANT NProcs = 20
 CHECK_DEADLOCK FALSE
